@@ -257,12 +257,15 @@ pub fn execute(
     KEEPALIVE.with(|k| k.borrow_mut().clear());
     cv::clock_enable();
     cv::idle_limit(IDLE_LIMIT);
-    let sentinel_id = install_sentinel();
 
     let mut tr = Trace::default();
     let flag = Arc::new(Flag(AtomicBool::new(true)));
     let waker = Waker::from(Arc::clone(&flag));
+    // the run is built first (a lazy stream / future: nothing of it executes yet), the
+    // sentinel hook is installed after that and before the first poll: it is the hook "in
+    // place before the run" which must be silent during it and back afterwards
     let mut subject = Some(make(cfg));
+    let sentinel_id = install_sentinel();
 
     let mut noprog = 0usize;
     let mut clock_budget = cfg.clock_budget;
